@@ -65,6 +65,20 @@ pub fn json_variants_as<K: EnrKey>(doc: &str) -> Vec<(&'static str, DecOut)> {
     out.push(("json-from_value", finish(r, t0)));
     let r = guard(|| serde_json::from_reader::<_, Enr<K>>(doc.as_bytes()).map(|e| (e, 0)).map_err(|e| e.to_string()));
     out.push(("json-from_reader", finish(r, t0)));
+    // the JSON string handed over as an OWNED String with far more capacity than length (built by pushes).
+    // (Deserializers other than serde_json's are outside C12/C16, which speak of the JSON form: serde's own
+    // StrDeserializer cannot drive a derived newtype visitor at all — NodeId's — so they are not used as oracles.)
+    if let Ok(serde_json::Value::String(body)) = serde_json::from_str::<serde_json::Value>(doc) {
+        let roomy = || {
+            let mut s = String::with_capacity(body.len() + 4096);
+            for ch in body.chars() {
+                s.push(ch);
+            }
+            s
+        };
+        let r = guard(|| serde_json::from_value::<Enr<K>>(serde_json::Value::String(roomy())).map(|e| (e, 0)).map_err(|e| e.to_string()));
+        out.push(("json-from_value-roomy-string", finish(r, t0)));
+    }
     if doc.len() > 3 && doc.starts_with('"') {
         // escape the first character of the string body
         let first = doc[1..].chars().next().unwrap();
